@@ -20,6 +20,7 @@
 -/
 import EmitModel.Lemmas.BatcherLive
 import EmitModel.Lemmas.BatcherExt
+import EmitModel.Model.OtlpE2E
 
 namespace EmitModel.C08
 open EmitModel.Batcher EmitModel.Sched
@@ -245,5 +246,42 @@ example : ∃ s, Reachable liveCfg s ∧ s.senderAlive = false ∧ s.rx ≠ .don
       s'.firstAttempts = [[1]] ∧ step liveCfg s' .rxTake = none :=
   ⟨_, ⟨[.send 1, .dropSender], rfl⟩, by decide, by decide,
    [.rxTake, .rxBegin, .rxOutcome .ok, .rxTake, .rxBegin], _, rfl, by decide, by decide, by decide, by decide⟩
+
+
+/-! ### The OTLP emitter's flush sits on three channels and still keeps ONE budget -/
+
+open EmitModel.OtlpE2E in
+/-- **`Otlp::blocking_flush(T)` returns within `T`** however many signals are configured and whatever each does:
+    the signals share the one budget (each is given what is left of it), so the call returns no later than `T`
+    after it started — not `T` per signal. -/
+theorem otlp_flush_within_budget (T : Nat) : ∀ (cs : List (Option Nat)) (e : Nat), e ≤ T → (flushSeq T cs e).2 ≤ T
+  | [], e, h => h
+  | some t :: rest, e, h => by
+    simp only [flushSeq]
+    split
+    · rename_i ht; exact otlp_flush_within_budget T rest (max e t) (Nat.max_le.2 ⟨h, ht⟩)
+    · exact Nat.le_refl T
+  | none :: _, _, _ => Nat.le_refl T
+
+open EmitModel.OtlpE2E in
+/-- … and it returns `true` exactly when every configured signal's channel became flushed within the budget; then
+    it returned at the latest of those instants (or at once). -/
+theorem otlp_flush_true_iff (T : Nat) : ∀ (cs : List (Option Nat)) (e : Nat),
+    ((flushSeq T cs e).1 = true ↔ ∀ c ∈ cs, ∃ t, c = some t ∧ t ≤ T) ∧
+    ((flushSeq T cs e).1 = true → (flushSeq T cs e).2 = cs.foldl (fun m c => max m (c.getD 0)) e)
+  | [], e => by simp [flushSeq]
+  | some t :: rest, e => by
+    have ih := otlp_flush_true_iff T rest (max e t)
+    by_cases ht : t ≤ T
+    · simp only [flushSeq, ht, if_true, List.foldl, Option.getD]
+      constructor
+      · rw [ih.1]; simp [ht]
+      · exact ih.2
+    · simp [flushSeq, ht]
+  | none :: rest, e => by simp [flushSeq]
+
+open EmitModel.OtlpE2E in
+example : flushSeq 1000 [some 800, some 0, none] 0 = (false, 1000) ∧ flushSeq 1000 [some 800, some 0, some 300] 0 = (true, 800) := by
+  decide
 
 end EmitModel.C08
